@@ -252,12 +252,18 @@ async fn exec_case(w: &mut World, drv: &mut Driver, kind: &str, evs: &[Ev]) -> C
     let mut pws: BTreeMap<u64, String> = BTreeMap::new();
     let mut hint: [Option<u64>; 2] = [None, None];
     let mut cred_seen: [Option<u64>; 2] = [None, None];
-    let mut reported = false;
+    // One model disagreement and one failure per oracle are kept per history, *independently*: after
+    // the first disagreement the model's state is no longer the implementation's, so later
+    // comparisons say nothing new, but the ORACLE only looks at the implementation's own
+    // outputs and keeps judging every remaining operation (AGENT_GUIDE "Search on break").
+    // (kind, class) pairs already reported for this history: the first of each is kept
+    let mut reported: Vec<(String, String)> = vec![];
     let input = |at: usize| json!({"kind": kind, "events": show_evs(evs), "at": at});
     macro_rules! fail {
         ($kind:expr, $class:expr, $at:expr, $exp:expr, $obs:expr) => {
-            if !reported {
-                reported = true;
+            let key: (String, String) = ($kind.into(), if $kind == "impl-vs-oracle" { $class.into() } else { String::new() });
+            if !reported.contains(&key) {
+                reported.push(key);
                 out.failures.push(Failure { kind: $kind.into(), class: $class.into(), input: input($at), expected: $exp, observed: $obs });
             }
         };
@@ -304,10 +310,10 @@ async fn exec_case(w: &mut World, drv: &mut Driver, kind: &str, evs: &[Ev]) -> C
                         t.commit().expect("commit exchange");
                         // O2 / O3
                         if links[*l].commits_ok > 0 {
-                            fail!("impl-vs-oracle", "unclassified", i, "O2 exchange refused after the link's change was committed".to_string(), "exchange succeeded".to_string());
+                            fail!("impl-vs-oracle", "O2:exchange-after-commit", i, "O2 exchange refused after the link's change was committed".to_string(), "exchange succeeded".to_string());
                         }
                         if now >= links[*l].expiry {
-                            fail!("impl-vs-oracle", "unclassified", i, format!("O3 exchange refused at {now} >= announced expiry {}", links[*l].expiry), "exchange succeeded".to_string());
+                            fail!("impl-vs-oracle", "O3:exchange-at-or-after-announced-expiry", i, format!("O3 exchange refused at {now} >= announced expiry {}", links[*l].expiry), "exchange succeeded".to_string());
                         }
                         if !links[*l].exchanges.is_empty() {
                             out.after_exch_attempts += 1;
@@ -384,15 +390,19 @@ async fn exec_case(w: &mut World, drv: &mut Driver, kind: &str, evs: &[Ev]) -> C
                                 o5_commit = Some((slot.acct, slot.last_pw));
                                 real_res = "committed".into();
                                 if let Some(l) = slot.link {
+                                    if slot.at >= links[l].expiry {
+                                        // consequence of an O3 failure (reported at the exchange): the late session also commits
+                                        out.counts.push("observation:commit-through-exchange-at-or-after-announced-expiry:ACCEPTED".into());
+                                    }
                                     // O1
                                     links[l].commits_ok += 1;
                                     if links[l].commits_ok > 1 {
-                                        fail!("impl-vs-oracle", "unclassified", i, "O1 at most one successful commit per link".to_string(), format!("{} successful commits through link {l}", links[l].commits_ok));
+                                        fail!("impl-vs-oracle", "O1:second-commit-through-one-link", i, "O1 at most one successful commit per link".to_string(), format!("{} successful commits through link {l}", links[l].commits_ok));
                                     }
                                     // O4
                                     let later: Vec<&(usize, u128)> = links[l].exchanges.iter().filter(|(s, _)| *s > *k).collect();
                                     if let Some((s2, at2)) = later.first() {
-                                        let class = if *at2 == slot.at { "H3:same-instant-exchange-supersede" } else { "unclassified" };
+                                        let class = if *at2 == slot.at { "H3:same-instant-exchange-supersede" } else { "O4:superseded-session-commits" };
                                         fail!("impl-vs-oracle", class, i, format!("O4 commit through slot {k} refused: link {l} was exchanged again (slot {s2})"), "commit succeeded".to_string());
                                     }
                                 }
@@ -509,13 +519,13 @@ async fn exec_case(w: &mut World, drv: &mut Driver, kind: &str, evs: &[Ev]) -> C
                 Some((ca, want)) if ca == a => {
                     if let Some(v) = want {
                         if seen[a] != Some(v) {
-                            fail!("impl-vs-oracle", "unclassified", i, format!("O5 stored credential of account {a} is password {v} (last set through the committing token)"), format!("{:?}", seen[a]));
+                            fail!("impl-vs-oracle", "O5:credential-changed-outside-commit", i, format!("O5 stored credential of account {a} is password {v} (last set through the committing token)"), format!("{:?}", seen[a]));
                         }
                     }
                 }
                 _ => {
                     if changed {
-                        fail!("impl-vs-oracle", "unclassified", i, format!("O5 stored credential of account {a} unchanged by `{}` ({real_res})", ev.show()), format!("{:?} -> {:?}", cred_seen[a], seen[a]));
+                        fail!("impl-vs-oracle", "O5:credential-changed-outside-commit", i, format!("O5 stored credential of account {a} unchanged by `{}` ({real_res})", ev.show()), format!("{:?} -> {:?}", cred_seen[a], seen[a]));
                     }
                 }
             }
@@ -531,7 +541,53 @@ async fn exec_case(w: &mut World, drv: &mut Driver, kind: &str, evs: &[Ev]) -> C
 // ---------------------------------------------------------------- generators
 
 /// Scripted cases: the flows of the property text, the H3 point and every boundary.
-fn scripted() -> Vec<(&'static str, Vec<Ev>)> {
+fn scripted() -> Vec<(String, Vec<Ev>)> {
+    let mut v: Vec<(String, Vec<Ev>)> = scripted_flows().into_iter().map(|(k, e)| (k.to_string(), e)).collect();
+    v.extend(late_reexchange());
+    v
+}
+
+/// "Once … the link expires, it can no longer be exchanged" — also after the link has already been
+/// exchanged once while it was valid. A link with less than the 900 s session lifetime left is
+/// exchanged at +10 s, the session is abandoned or cancelled (+20 s), and the same link is exchanged
+/// again around the expiry the server ANNOUNCED for it at init (−1 s must still work, +0 and +1 s
+/// must not) and 899 s after the first exchange (while that first session would still be alive:
+/// past every announced expiry used here). The new session then sets a password and commits.
+fn late_reexchange() -> Vec<(String, Vec<Ev>)> {
+    use Ev::*;
+    let s = NS;
+    let mut v = vec![];
+    for ttl in [300u64, 301, 600, 899] {
+        for cancel in [false, true] {
+            // instants relative to the init
+            let whens: [(&str, u128); 4] = [
+                ("expiry-1s", (ttl as u128 - 1) * s),
+                ("expiry+0", ttl as u128 * s),
+                ("expiry+1s", (ttl as u128 + 1) * s),
+                ("first+899s", 10 * s + 899 * s),
+            ];
+            for (wn, at) in whens {
+                let mut e = vec![I(0, Some(ttl)), T(10 * s), X(0), P(0)];
+                let mut now = 10 * s;
+                if cancel {
+                    e.extend([T(10 * s), K(0)]);
+                    now += 10 * s;
+                }
+                e.extend([T(at - now), X(0), P(1), C(1), C(0), X(0)]);
+                v.push((format!("late-ttl{ttl}-{}-{wn}", if cancel { "cancel" } else { "abandon" }), e));
+            }
+        }
+    }
+    // the same through the clamp (ttl 1 s is announced as 300 s) and at nanosecond distance
+    v.push(("late-clamped-expiry+0".into(), vec![I(0, Some(1)), T(10 * s), X(0), T(290 * s), X(0), P(1), C(1)]));
+    v.push(("late-ttl300-expiry-1ns".into(), vec![I(0, Some(300)), T(10 * s), X(0), T(290 * s - 1), X(0), P(1), C(1), T(1), X(0)]));
+    v.push(("late-ttl300-cancel-expiry+1ns".into(), vec![I(0, Some(300)), T(10 * s), X(0), K(0), T(290 * s + 1), X(0), P(1), C(1)]));
+    // a chain of re-exchanges, each inside the previous session's 900 s but the last past the link's expiry
+    v.push(("late-chain".into(), vec![I(0, Some(600)), T(10 * s), X(0), T(500 * s), X(0), T(500 * s), X(0), P(2), C(2), T(500 * s), X(0)]));
+    v
+}
+
+fn scripted_flows() -> Vec<(&'static str, Vec<Ev>)> {
     use Ev::*;
     let s = NS;
     vec![
@@ -630,7 +686,10 @@ fn enumerate(n: usize, f: &mut dyn FnMut(Vec<Ev>)) {
 /// Random histories over one or two links on one or two accounts with boundary-seeking clock steps.
 /// The generator keeps a rough guess of which exchanges succeeded so that most references hit a
 /// live token; wrong guesses only make the history less busy, never wrong.
-fn random_case(r: &mut Rng) -> Vec<Ev> {
+fn random_case(r: &mut Rng, search: bool) -> Vec<Ev> {
+    if search && r.chance(1, 2) {
+        return late_random_case(r);
+    }
     let two_links = r.chance(1, 2);
     let two_accts = two_links && r.chance(1, 2);
     let ttl = |r: &mut Rng| match r.below(6) {
@@ -784,6 +843,110 @@ fn random_case(r: &mut Rng) -> Vec<Ev> {
     evs
 }
 
+/// Search mode (`--budget` > 1): histories shaped like the situations oracle O3 needs beyond the
+/// never-exchanged link — a short-lived link, an early exchange (abandoned, cancelled, superseded or
+/// left with a password set), then further exchanges at instants around the expiry the server
+/// announced and around the end of the earlier session (first exchange + 900 s).
+fn late_random_case(r: &mut Rng) -> Vec<Ev> {
+    let ttl: Option<u64> = match r.below(8) {
+        0 | 1 => Some(300),
+        2 => Some(301),
+        3 => Some(r.range(1, 299)), // clamped up to 300
+        4 => Some(899),
+        5 => Some(900),
+        _ => Some(r.range(302, 1200)),
+    };
+    let life = ttl.unwrap_or(3600).clamp(300, 86_400) as u128 * NS;
+    let mut evs = vec![Ev::I(0, ttl)];
+    let mut t: u128 = 0;
+    let mut slots = 0usize;
+    // an unrelated second link now and then (same or other account)
+    if r.chance(1, 5) {
+        evs.push(Ev::I(r.below(2) as usize, Some(r.range(300, 1200))));
+    }
+    // first exchange early in the link's life
+    let d = match r.below(4) {
+        0 => 0,
+        1 => NS * r.range(1, 20) as u128,
+        2 => r.below(life as u64 / 2) as u128,
+        _ => r.below(life as u64) as u128,
+    };
+    if d > 0 {
+        evs.push(Ev::T(d));
+        t += d;
+    }
+    let first = t;
+    let rounds = r.range(1, 3);
+    for round in 0..rounds {
+        evs.push(Ev::X(0));
+        let k = slots;
+        slots += 1;
+        if r.chance(1, 2) {
+            evs.push(Ev::P(k));
+        }
+        // what happens to this session
+        match r.below(5) {
+            0 | 1 => {} // abandoned
+            2 | 3 => {
+                let d = NS * r.range(0, 15) as u128;
+                if d > 0 {
+                    evs.push(Ev::T(d));
+                    t += d;
+                }
+                evs.push(Ev::K(k));
+            }
+            _ => {
+                // a link-less session in between (runs the session GC)
+                evs.push(Ev::D(r.below(2) as usize));
+                slots += 1;
+            }
+        }
+        // next instant: around the announced expiry, around the end of an earlier session, or in between
+        let marks = [life, first + CU_TTL, t + CU_TTL];
+        let target = match r.below(8) {
+            0..=3 => {
+                let m = if round + 1 == rounds && r.chance(2, 3) { life } else { *r.pick(&marks) };
+                match r.below(7) {
+                    0 => m.saturating_sub(1),
+                    1 => m,
+                    2 => m + 1,
+                    3 => m.saturating_sub(NS),
+                    4 => m + NS,
+                    5 => m + NS * r.range(2, 120) as u128,
+                    _ => m.saturating_sub(NS * r.range(2, 120) as u128),
+                }
+            }
+            4 | 5 => {
+                // past the announced expiry but inside the earlier session's lifetime
+                let lo = life.max(t) + 1;
+                let hi = (first + CU_TTL).max(lo + 1);
+                lo + r.below((hi - lo) as u64) as u128
+            }
+            6 => t + NS * r.range(1, 400) as u128,
+            _ => t + r.below((2 * CU_TTL) as u64) as u128,
+        };
+        if target > t {
+            evs.push(Ev::T(target - t));
+            t = target;
+        }
+    }
+    // the decisive exchange and what the resulting session can do
+    evs.push(Ev::X(0));
+    let k = slots;
+    evs.push(Ev::P(k));
+    if r.chance(1, 4) {
+        evs.push(Ev::T(NS * r.range(1, 30) as u128));
+    }
+    evs.push(Ev::C(k));
+    if r.chance(1, 2) {
+        evs.push(Ev::C(r.below(k as u64 + 1) as usize));
+    }
+    if r.chance(1, 2) {
+        evs.push(Ev::X(0));
+    }
+    evs
+}
+
 fn main() {
     if std::env::var_os("RUST_LOG").is_none() {
         std::env::set_var("RUST_LOG", "off");
@@ -798,7 +961,10 @@ fn main() {
     );
     let mut drv = Driver::spawn(&args.driver);
     let mut w = rt.block_on(World::new());
-    let run = |w: &mut World, drv: &mut Driver, rep: &mut Report, kind: &str, evs: Vec<Ev>| {
+    let mut oracle_seen_v: Vec<String> = vec![];
+    let (mut model_seen_n, mut oracle_extra_n) = (0u32, 0u32);
+    let (oracle_seen, model_seen, oracle_extra) = (&mut oracle_seen_v, &mut model_seen_n, &mut oracle_extra_n);
+    let mut run = |w: &mut World, drv: &mut Driver, rep: &mut Report, kind: &str, evs: Vec<Ev>| {
         // every person is a member of the built-in dynamic groups, whose entries grow with each
         // account: start from a fresh server now and then to keep the cost per history flat
         if w.next_acct >= 300 {
@@ -819,20 +985,46 @@ fn main() {
         if rep.samples.len() < 4 && nontrivial && out.commits_ok > 0 && (rep.evaluations % 7 == 1) {
             rep.sample(json!({"kind": kind, "events": show_evs(&evs), "outcomes": out.outcomes}));
         }
-        if let Some(f) = out.failures.into_iter().next() {
-            if rep.failures.len() >= 5 {
-                // enough minimised witnesses; keep the rest unminimised
+        // Model disagreements: a handful of minimised witnesses, the rest only counted — a changed
+        // implementation disagrees with the model on almost every history, and these must neither
+        // fill the report nor stop the oracle from being evaluated on the remaining histories.
+        // Oracle failures: always recorded; the first one per oracle (O1..O5) is minimised.
+        for f in out.failures {
+            let is_oracle = f.kind == "impl-vs-oracle";
+            let onum = f.expected.split(' ').next().unwrap_or("").to_string();
+            let minimise = if is_oracle {
+                rep.count(&format!("oracle-failure:{onum}"));
+                if oracle_seen.contains(&onum) {
+                    if *oracle_extra >= 4 {
+                        continue;
+                    }
+                    *oracle_extra += 1;
+                    false
+                } else {
+                    oracle_seen.push(onum.clone());
+                    true
+                }
+            } else {
+                rep.count("model-disagreement");
+                *model_seen += 1;
+                if *model_seen > 5 {
+                    continue;
+                }
+                true
+            };
+            if !minimise {
                 rep.fail(f);
-                return;
+                continue;
             }
-            // minimise: drop events while a failure of the same kind and class remains
+            // minimise: drop events while a failure of the same kind, class (and oracle) remains
             let (fk, fc) = (f.kind.clone(), f.class.clone());
+            let same = |g: &Failure| g.kind == fk && g.class == fc && (!is_oracle || g.expected.split(' ').next().unwrap_or("") == onum);
             let small = shrink_list(evs.clone(), |cand| {
                 let o = rt.block_on(exec_case(w, drv, kind, cand));
-                o.failures.first().map(|g| g.kind == fk && g.class == fc).unwrap_or(false)
+                o.failures.iter().any(|g| same(g))
             });
             let o = rt.block_on(exec_case(w, drv, kind, &small));
-            match o.failures.into_iter().next() {
+            match o.failures.into_iter().find(|g| same(g)) {
                 Some(g) => rep.fail(g),
                 None => rep.fail(f),
             }
@@ -844,29 +1036,43 @@ fn main() {
         run(&mut w, &mut drv, &mut rep, "replay", evs);
     } else {
         let only = args.extra.get("only").cloned().unwrap_or_default();
+        // the scripted corpus always runs to its end (cheap); the exhaustive and random streams stop
+        // once an oracle failure has been found and minimised — never because of model disagreements
+        let oracle_hit = |rep: &Report| rep.failures.iter().any(|f| f.kind == "impl-vs-oracle");
         for (kind, evs) in scripted() {
-            run(&mut w, &mut drv, &mut rep, kind, evs);
+            run(&mut w, &mut drv, &mut rep, &kind, evs);
         }
         if only == "scripted" {
             rep.write(&args.out);
             return;
         }
+        let search = args.budget > 1;
         let depth = if args.thorough() { 5 } else { 4 };
         for n in 1..=depth {
+            if oracle_hit(&rep) {
+                break;
+            }
             let mut all = vec![];
             enumerate(n, &mut |evs| all.push(evs));
             rep.count_n(&format!("exhaustive:len{n}"), all.len() as u64);
             for evs in all {
                 run(&mut w, &mut drv, &mut rep, "exhaustive", evs);
+                if oracle_hit(&rep) {
+                    break;
+                }
             }
         }
         // exhaustive only within the stated sub-scope, hence not flagged as an exhaustive stream
         rep.note(format!("exhaustive sub-scope: one link (ttl 300 s) on one account, every event sequence of length <= {depth} over {{X+P, C0, C1, K0, K1, R, +1 s, +300 s, +900 s}} up to the stated symmetries (no dangling slot, no trailing or doubled clock step)"));
         let nr = args.cases(500, 12_000);
         for i in 0..nr {
+            if oracle_hit(&rep) {
+                rep.note(format!("stopped after an oracle failure had been found and minimised ({} histories run)", rep.evaluations));
+                break;
+            }
             let mut r = Rng::for_case(args.seed, i);
-            let evs = random_case(&mut r);
-            run(&mut w, &mut drv, &mut rep, "random", evs);
+            let evs = random_case(&mut r, search);
+            run(&mut w, &mut drv, &mut rep, if search { "random-search" } else { "random" }, evs);
         }
     }
     rep.model_requests = drv.requests;
